@@ -352,8 +352,8 @@ func checkC14(r *Run) {
 			}
 			if a != nil && b != nil {
 				ioutil.WriteFile(filepath.Join(dir, "request.bin"), a.Request, 0o644)
-				ioutil.WriteFile(filepath.Join(dir, "a.go"), []byte(a.TFContent), 0o644)
-				ioutil.WriteFile(filepath.Join(dir, "b.go"), []byte(b.TFContent), 0o644)
+				ioutil.WriteFile(filepath.Join(dir, "a.go.txt"), []byte(a.TFContent), 0o644)
+				ioutil.WriteFile(filepath.Join(dir, "b.go.txt"), []byte(b.TFContent), 0o644)
 				ioutil.WriteFile(filepath.Join(dir, "a.yaml"), []byte(a.YAML), 0o644)
 				ioutil.WriteFile(filepath.Join(dir, "b.yaml"), []byte(b.YAML), 0o644)
 				r.violate("nondeterministic/"+label, g.name, "", label, fmt.Sprintf("%d distinct responses over %d runs: %s", len(hashes), len(cases), firstDiff(a.TFContent, b.TFContent)),
